@@ -416,3 +416,47 @@ func zzC03_late_response() {
 		symAssert(len(b.body) == 1 && b.body[0] == tagB, "and the content produced for it")
 	}
 }
+
+// a token is reused the moment its exchange is over on the wire: the response of request A has been delivered to
+// A's call, which has not returned yet, when another goroutine issues request B with the same (caller-chosen)
+// token. B is either refused (the token is still A's) or accepted - and an accepted B owns the token: it gets the
+// response the peer produces for it, and a third request C with the token is refused while B is outstanding
+func zzC03_token_handover() {
+	s := zzNewSession()
+	cc := zzNewConn(s, zzConnCfg{midSeed: 1000, nstart: 4, maxRetrans: 4, ackTimeout: 1 << 30})
+	symSetNow(time.Unix(0, 1<<41))
+	tok := message.Token{0x77}
+	tagA, tagB := symU8("tagA"), symU8("tagB")
+	a := &zzCall{token: tok}
+	go zzDo(cc, a)
+	zzWaitWritten(s, 1)
+	symIdle()
+	// A's response arrives; A's goroutine is runnable from here on but need not have run
+	zzAnswer(cc, s.written[0], tagA, 0, 1)
+	b := &zzCall{token: tok}
+	go zzDo(cc, b)
+	symWaitUntil(func() bool { return a.done })
+	symAssert(a.err == nil && len(a.body) == 1 && a.body[0] == tagA, "the first request returns its own response")
+	symIdle()
+	if b.done {
+		symCover("reuse-refused")
+		symAssert(b.err != nil, "a request that ends before any response for it arrived was refused")
+		return
+	}
+	symCover("reuse-accepted")
+	symAssert(len(s.written) == 2, "the accepted request is on the wire")
+	// B is outstanding: a third request with the token must be refused and must not disturb B
+	c := &zzCall{token: tok}
+	go zzDo(cc, c)
+	symIdle()
+	symAssert(c.done && c.err != nil, "a request issued with a token that is still outstanding is rejected")
+	zzAnswer(cc, s.written[1], tagB, 0, 1)
+	symIdle()
+	symAssert(b.done && b.err == nil, "the outstanding request is completed by the response the peer produced for it")
+	if b.done && b.err == nil {
+		symAssert(len(b.body) == 1 && b.body[0] == tagB, "and returns that response")
+	}
+	if c.err == nil {
+		symAssert(!(len(c.body) == 1 && c.body[0] == tagB), "a response is never delivered to a different caller")
+	}
+}
